@@ -67,6 +67,20 @@ def family(tier):
     rec = [('a', 'int', '$ >= 0 && $ <= 4'), ('b', 'int', None)]
     F.append(P('rec_fact', 'fn fact(n: int) -> int {\n    if (<= n 1) {\n        return 1\n    }\n    return (* n (fact (- n 1)))\n}\nfn f(a: int, b: int) -> int {\n    return (+ (fact a) b)\n}\n', rec, unwind=8, tier='noverdict'))
     F.append(P('rec_fib', 'fn fib(n: int) -> int {\n    if (< n 2) {\n        return n\n    }\n    return (+ (fib (- n 1)) (fib (- n 2)))\n}\nfn f(a: int, b: int) -> int {\n    return (- (fib a) b)\n}\n', [('a', 'int', '$ >= 0 && $ <= 4'), ('b', 'int', None)], unwind=8, tier='noverdict'))
+    # --- more control flow / call shapes ---
+    abc = [('a', 'int', None), ('b', 'int', None), ('c', 'int', None)]
+    F.append(P('three_params', 'fn f(a: int, b: int, c: int) -> int {\n    if (< a b) {\n        return (- c a)\n    }\n    return (+ c b)\n}\n', abc))
+    F.append(P('early_return_loop', 'fn f(a: int, b: int) -> int {\n    let mut i: int = 0\n    while (< i b) {\n        if (== i a) {\n            return (+ i 100)\n        }\n        set i (+ i 1)\n    }\n    return (- 0 1)\n}\n', small))
+    F.append(P('bool_flag', 'fn f(a: int, b: int) -> int {\n    let mut found: bool = false\n    if (> a b) {\n        set found true\n    }\n    if (and found (> a 0)) {\n        return 1\n    }\n    if (or found (== b 0)) {\n        return 2\n    }\n    return 3\n}\n', ab))
+    F.append(P('shadow_depth3', 'fn f(a: int, b: int) -> int {\n    let x: int = a\n    if (< a b) {\n        let x: int = (+ a 10)\n        if (> x 0) {\n            let x: int = (- a b)\n            (println x)\n        }\n        (println x)\n    }\n    return x\n}\n', ab))
+    F.append(P('call_chain', 'fn inc(x: int) -> int {\n    return (+ x 1)\n}\nfn twice(x: int) -> int {\n    return (inc (inc x))\n}\nfn f(a: int, b: int) -> int {\n    return (- (twice a) (inc b))\n}\n', ab))
+    F.append(P('void_helper', 'fn show(x: int) -> void {\n    (println x)\n}\nfn f(a: int, b: int) -> int {\n    (show a)\n    (show (+ b 1))\n    return (- a b)\n}\n', ab))
+    F.append(P('cond_expr', 'fn f(a: int, b: int) -> int {\n    return (cond ((< a 0) (- 0 a)) ((== a b) 0) (else (+ a b)))\n}\n', ab))
+    F.append(P('nested_while', 'fn f(a: int, b: int) -> int {\n    let mut s: int = 0\n    let mut i: int = 0\n    while (< i b) {\n        let mut j: int = 0\n        while (< j i) {\n            set s (+ s a)\n            set j (+ j 1)\n        }\n        set i (+ i 1)\n    }\n    return s\n}\n', [('a', 'int', None), ('b', 'int', '$ >= 0 && $ <= 2')], tier='cand'))
+    F.append(P('print_in_loop', 'fn f(a: int, b: int) -> int {\n    let mut i: int = 0\n    while (< i b) {\n        (println (+ a i))\n        set i (+ i 1)\n    }\n    return i\n}\n', small))
+    F.append(P('cmp_chain_infix', 'fn f(a: int, b: int) -> bool {\n    return (a < b) and (not (a == 0)) or (b > 5)\n}\n', ab, ret='bool'))
+    F.append(P('bool_params', 'fn f(p: bool, q: bool) -> int {\n    if p {\n        if q {\n            return 3\n        }\n        return 2\n    }\n    if (not q) {\n        return 0\n    }\n    return 1\n}\n', pq))
+    F.append(P('assert_stmt', 'fn f(a: int, b: int) -> int {\n    assert (== (+ a 0) a)\n    return b\n}\n', ab))
     # --- data: strings, arrays, structs, enums, tuples, globals ---
     F.append(P('str_literal', 'fn f(a: int, b: int) -> int {\n    let s: string = "ab"\n    (println s)\n    return (str_length s)\n}\n', ab, tier='quick'))
     F.append(P('str_eq', 'fn f(a: int, b: int) -> bool {\n    let s: string = "ab"\n    let t: string = "ab"\n    return (== s t)\n}\n', ab, ret='bool', tier='quick'))
@@ -81,6 +95,7 @@ def family(tier):
     F.append(P('global_const', 'let K: int = 5\nfn f(a: int, b: int) -> int {\n    return (+ a K)\n}\n', ab, tier='quick'))
     # compile-only members (the driver gives no verdict on struct values): cc acceptance of the generated C is observed
     F.append(P('struct_decl_order', 'struct Figure {\n    edge: Segment\n}\nstruct Segment {\n    a: Point,\n    b: Point\n}\nstruct Point {\n    x: int,\n    y: int\n}\nfn f(a: int, b: int) -> int {\n    let p: Point = Point { x: a, y: b }\n    let q: Point = Point { x: b, y: a }\n    let sg: Segment = Segment { a: p, b: q }\n    let fg: Figure = Figure { edge: sg }\n    return (+ fg.edge.a.x fg.edge.b.x)\n}\n', ab, tier='quick', note='compile-only'))
+    F.append(P('shadow_selfref', 'fn f(a: int, b: int) -> int {\n    let x: int = a\n    if (< a b) {\n        let x: int = (+ x 10)\n        (println x)\n    }\n    return x\n}\n', ab, tier='quick', note='compile-only'))
     if tier == 'quick':
         F = [p for p in F if p['tier'] == 'quick']
     elif tier == 'thorough':
